@@ -33,10 +33,34 @@ def streq(ctx, prog, rule="R-STREQ"):
             if st["k"] != "ReturnStmt" or not st["c"]:
                 continue
             r = fn.s(fn.strip(st["c"][0], casts=True))
-            if not (r["k"] == "CXXBoolLiteralExpr" and r["v"] is True):
+            if r["k"] == "CXXBoolLiteralExpr" and r["v"] is False:
                 continue
+            if r["k"] in P.CALL_KINDS and r.get("callee", {}).get("q", "").split("::")[-1] in ("stringEquals", "operator=="):
+                continue        # forwards to another equality, judged there
+            literal_true = r["k"] == "CXXBoolLiteralExpr" and r["v"] is True
+            if not literal_true and all((p_.get("tr") or p_["t"]).split("::")[-1].startswith("ZeroTerminated") for p_ in fn.params):
+                continue        # two zero-terminated strings: strcmp compares the terminators, i.e. the lengths
             n += 1
             ok = False
+
+            def is_size_cmp(e, want_eq):
+                c_ = fn.s(fn.strip(e, casts=True))
+                if c_["k"] != "BinaryOperator" or c_["op"] not in ("==", "!="):
+                    return False
+                ta, tb = (fn.text(fn.strip(x, casts=True)).lower() for x in c_["c"])
+                sized = all(("size" in t or "length" in t or "strlen" in t) for t in (ta, tb))
+                return sized and ((c_["op"] == "==") == want_eq)
+            if not literal_true:
+                # a computed result: one of its top-level conjuncts must be the size equality
+                conj = [st["c"][0]]
+                k_ = 0
+                while k_ < len(conj):
+                    ce = fn.s(fn.strip(conj[k_], casts=True))
+                    if ce["k"] == "BinaryOperator" and ce["op"] == "&&":
+                        conj.extend(ce["c"])
+                    k_ += 1
+                if any(is_size_cmp(e, True) for e in conj):
+                    ok = True
             for cond, pol in fn.guards_of(i):
                 c = fn.s(fn.strip(cond, casts=True))
                 if c["k"] == "BinaryOperator" and c["op"] in ("!=", "=="):
